@@ -27,33 +27,52 @@
 (*   geninfo  mpt_meta_geninfo  (not shareable: addref answers 0)           *)
 (*   metabuf  mpt_meta_buffer   (not shareable, clonable)                   *)
 (*   cxxref   C++ reference<T>::type with reference<T> handles              *)
+(*   metanew  mpt_meta_new of a text of tlen bytes (geninfo below 250 bytes, *)
+(*            buffer metatype from there on); one length per behaviour       *)
 (*   bare     a plain struct refcount (counter edge values)                 *)
+(*                                                                         *)
+(* Nested holders: an object of kind buf (array of arrays), hmeta or cxxref *)
+(* can itself hold a reference (inner[o]); it is released when the holder   *)
+(* is destroyed (cascade).  Assigning to a handle the object that only the  *)
+(* handle's current referent keeps alive is the history that tells "retain  *)
+(* the new one, then release the old one" from the reverse order.           *)
+(* Teardown: releasing everything must destroy everything and leave nothing *)
+(* allocated; the Gen export appends it to every behaviour, so a counter    *)
+(* that drifted (also through a refused call) shows at the latest there.    *)
 (***************************************************************************)
 EXTENDS Naturals, Integers, Sequences, FiniteSets, TLC
 
 CONSTANTS Kinds, NH, NObj,
+          TextLens,   \* text lengths offered to mpt_meta_new (around the 250 byte limit of the small metatype)
           Max,        \* largest counter value (UINTPTR_MAX, scaled; values above Max \div 2 are "MAX - k")
           MaxExtra,   \* bound on plain-pointer references per object taken one by one
           MaxTries,   \* bound on consecutive rejected replies through one detached handle
           AsFound
 
 VARIABLES kind, holds, copyh, hascopy, extra, defer, made,   \* Tier 1
+          inner,      \* Tier 1: the reference object o itself holds (0 = none); only for live o
+          origin,     \* clone ancestry (objects sharing one text buffer)
+          tlen,       \* kind metanew: length of the text every object of the behaviour is made from
           cnt, alive,                                         \* Tier 2
           snd,        \* Tier 2, reply contexts: the send callback is still set (ctx->reply.send); a metatype
                       \* unref that leaves other references clears it, after that every reply counts as delivered
           tries,      \* rejected reply attempts on the current detached handle of o (bounded by MaxTries):
                       \* makes "failed, handle kept, try again" a history the exploration walks through
           obs
-vars == <<kind, holds, copyh, hascopy, extra, defer, made, cnt, alive, snd, tries, obs>>
+vars == <<kind, holds, copyh, hascopy, extra, defer, made, inner, origin, tlen, cnt, alive, snd, tries, obs>>
 
 Handles == 1..NH
 Objs    == 1..NObj
 
 ---------------------------------------------------------------------------
 (* what each kind offers *)
-MetaKinds   == {"hmeta", "reply", "rawdata", "stream", "geninfo", "metabuf", "outlocal", "outremote", "iterfile"}
+MetaKinds   == {"hmeta", "reply", "rawdata", "stream", "geninfo", "metabuf", "metanew", "outlocal", "outremote", "iterfile"}
 Sharable(k) == k \in {"buf", "hmeta", "reply", "rawdata", "stream", "cxxref", "outlocal", "outremote", "iterfile"}
-Clonable(k) == k \in {"hmeta", "geninfo", "metabuf", "iterfile"}
+Clonable(k) == k \in {"hmeta", "geninfo", "metabuf", "metanew", "iterfile"}
+NestKind(k) == k \in {"buf", "hmeta", "cxxref"}     \* objects that can hold a reference themselves
+(* buffers come in two makes, one per behaviour: tlen = 0 plain and empty, tlen > 0 an array of arrays with one element *)
+Nestable(k) == NestKind(k) /\ (k = "buf" => tlen > 0)
+TextShare(k) == k \in {"metabuf", "metanew"}         \* objects that may expose a shared text buffer
 Pokable(k)  == k \in {"hmeta", "cxxref"}
 CntSeen(k)  == k \in {"hmeta", "cxxref"}          \* the driver can read the counter
 CopyVias(k) == IF k = "buf" THEN {"clone", "traits", "cxx", "cxxctor"}
@@ -71,71 +90,100 @@ ClearsOnFail(via) == via \in {"cxx", "cxxctor"}    \* reference<T>: handle ends 
 (* Tier 1 *)
 Count(S) == Cardinality(S)
 HRefsOf(hl, ch, hc, o) == Count({h \in Handles : hl[h] = o}) + (IF hc THEN Count({h \in Handles : ch[h] = o}) ELSE 0)
+RootsOf(hl, ch, hc, ex, df, o) == HRefsOf(hl, ch, hc, o) + ex[o] + df[o]
+RECURSIVE Grow(_, _, _)
+Grow(S, inn, k) == IF k = 0 THEN S ELSE Grow(S \cup ({inn[p] : p \in S} \ {0}), inn, k - 1)
+(* objects reachable from the handles / plain pointers / deferred handles through nested references *)
+LiveOf(inn, hl, ch, hc, ex, df) == Grow({o \in Objs : RootsOf(hl, ch, hc, ex, df, o) > 0}, inn, NObj)
+RefsOf(inn, hl, ch, hc, ex, df, o) == RootsOf(hl, ch, hc, ex, df, o)
+                                      + Count({p \in LiveOf(inn, hl, ch, hc, ex, df) : inn[p] = o})
+NormInner(inn, hl, ch, hc, ex, df) == [p \in Objs |-> IF p \in LiveOf(inn, hl, ch, hc, ex, df) THEN inn[p] ELSE 0]
 HRefs(o) == HRefsOf(holds, copyh, hascopy, o)
-Refs(o)  == HRefs(o) + extra[o] + defer[o]
+Live1    == LiveOf(inner, holds, copyh, hascopy, extra, defer)
+Refs(o)  == RefsOf(inner, holds, copyh, hascopy, extra, defer, o)
+NestRefs(o) == Refs(o) - HRefs(o) - extra[o] - defer[o]
+Reaches(a, b) == a # 0 /\ b \in Grow({a}, inner, NObj)         \* b is a or nested (transitively) in a
 
-(* Tier 2: counter machine  m = [cnt, alive, gone] *)
-M0 == [cnt |-> cnt, alive |-> alive, snd |-> snd, gone |-> <<>>]
+(* Tier 2: counter machine  m = [cnt, alive, snd, inn, gone]; destroying an object releases what it holds *)
+M0 == [cnt |-> cnt, alive |-> alive, snd |-> snd, inn |-> inner, gone |-> <<>>]
 CanRaise(m, o) == Sharable(kind) /\ m.alive[o] /\ m.cnt[o] # 0 /\ m.cnt[o] # Max
 MRaise(m, o)   == [m EXCEPT !.cnt[o] = @ + 1]
-MLowerD(m, o)  == IF o = 0 THEN m                       \* release that is not a metatype unref (detached handle)
-                  ELSE IF m.cnt[o] <= 1 \/ ~Sharable(kind)
-                  THEN [m EXCEPT !.cnt[o] = 0, !.alive[o] = FALSE, !.gone = Append(@, o)]
-                  ELSE [m EXCEPT !.cnt[o] = @ - 1]
-MLower(m, o)   == IF o = 0 THEN m                       \* unref through the object's interface
-                  ELSE IF m.cnt[o] <= 1 \/ ~Sharable(kind)
-                  THEN [m EXCEPT !.cnt[o] = 0, !.alive[o] = FALSE, !.gone = Append(@, o)]
-                  ELSE [m EXCEPT !.cnt[o] = @ - 1, !.snd[o] = IF kind = "reply" THEN FALSE ELSE @]
+RECURSIVE MLowerX(_, _, _)
+MLowerX(m, o, meta) ==                                   \* meta: an unref through the object's interface
+  IF o = 0 THEN m
+  ELSE IF m.cnt[o] <= 1 \/ ~Sharable(kind)
+  THEN MLowerX([m EXCEPT !.cnt[o] = 0, !.alive[o] = FALSE, !.gone = Append(@, o), !.inn[o] = 0], m.inn[o], TRUE)
+  ELSE [m EXCEPT !.cnt[o] = @ - 1, !.snd[o] = IF meta /\ kind = "reply" THEN FALSE ELSE @]
+MLower(m, o)  == MLowerX(m, o, TRUE)
+MLowerD(m, o) == MLowerX(m, o, FALSE)                    \* release by a detached reply handle
 MTryRaise(m, o) == IF o # 0 /\ CanRaise(m, o) THEN MRaise(m, o) ELSE m
 
 SetM(m) == cnt' = m.cnt /\ alive' = m.alive /\ snd' = m.snd
+(* Tier 1 side of nested references: cand with the holders that are no longer reachable cleared *)
+SetInner(cand) == inner' = NormInner(cand, holds', copyh', hascopy', extra', defer')
 
 (* counter as the driver reports it: k for small values, Max-k mapped by the driver *)
 Seen(o, c, a) == IF CntSeen(kind) /\ a[o] THEN c[o] ELSE -1
 Bit(b) == IF b THEN 1 ELSE 0
 
+(* a text buffer exposed by a buffer metatype can only be shared if somebody else may hold it too: the harness *)
+(* (metabuf) or another live object cloned from the same origin                                               *)
 Answer(a, arg, ret, gone, val) ==
+  LET L     == LiveOf(inner', holds', copyh', hascopy', extra', defer')        \* computed once per step
+      lv    == [o \in Objs |-> o <= made' /\ o \in L]
+      rf    == [o \in Objs |-> RootsOf(holds', copyh', hascopy', extra', defer', o) + Count({p \in L : inner'[p] = o})]
+      tsh   == [o \in Objs |-> (IF kind = "metabuf" THEN 1 ELSE 0) + Count({p \in Objs : lv[p] /\ origin'[p] = origin'[o]}) > 1]
+  IN
   obs' = [a |-> a, arg |-> arg,
           exp |-> [ret    |-> ret,
                    href   |-> holds',
                    copy   |-> IF hascopy' THEN copyh' ELSE [h \in Handles |-> 0],
-                   alive  |-> [o \in Objs |-> Bit(HRefsOf(holds', copyh', hascopy', o) + extra'[o] + defer'[o] > 0 /\ o <= made')],
+                   inner  |-> [o \in Objs |-> IF lv[o] THEN inner'[o] ELSE 0],
+                   alive  |-> [o \in Objs |-> Bit(lv[o])],
                    gone   |-> gone,
-                   cnt    |-> [o \in Objs |-> IF CntSeen(kind) /\ o <= made'
-                                                 /\ HRefsOf(holds', copyh', hascopy', o) + extra'[o] + defer'[o] > 0
-                                              THEN HRefsOf(holds', copyh', hascopy', o) + extra'[o] + defer'[o] ELSE -1],
-                   shared |-> [o \in Objs |-> IF kind = "buf" /\ o <= made'
-                                                 /\ HRefsOf(holds', copyh', hascopy', o) + extra'[o] + defer'[o] > 0
-                                              THEN Bit(HRefsOf(holds', copyh', hascopy', o) + extra'[o] + defer'[o] > 1) ELSE -1],
+                   cnt    |-> [o \in Objs |-> IF CntSeen(kind) /\ lv[o] THEN rf[o] ELSE -1],
+                   shared |-> [o \in Objs |-> IF ~lv[o] THEN -1
+                                              ELSE IF kind = "buf" THEN Bit(rf[o] > 1)
+                                              \* a text buffer nobody else can hold is not shared; otherwise free
+                                              ELSE IF TextShare(kind) /\ ~tsh[o] THEN 0 ELSE -1],
                    val    |-> val,
                    bare   |-> IF kind = "bare" THEN cnt'[1] ELSE -1,
                    badfree |-> 0,   \* nothing is ever released that is not a live allocation
-                   quiet  |-> IF ~hascopy' /\ \A o \in Objs : HRefsOf(holds', copyh', hascopy', o) + extra'[o] + defer'[o] = 0
+                   quiet  |-> IF ~hascopy' /\ \A o \in Objs : ~lv[o]
                               THEN 0 ELSE -1]]   \* nothing refers to anything: nothing may stay allocated
 
 Tier1Same == UNCHANGED <<holds, copyh, hascopy, extra, defer, made>>
 NoTry     == UNCHANGED tries
-Same      == Tier1Same /\ UNCHANGED <<cnt, alive, snd>>
-FrameK    == UNCHANGED kind
+Same      == Tier1Same /\ UNCHANGED <<cnt, alive, snd, inner>>
+FrameK    == UNCHANGED <<kind, tlen>>
+KeepOrigin == UNCHANGED origin
 Frame     == FrameK /\ NoTry
 
 ---------------------------------------------------------------------------
+FrameO == Frame /\ KeepOrigin
+T1Keep(S) == UNCHANGED S                      \* readability: Tier-1 variables an action leaves alone
+
 (* a new object, referred to by the empty handle h *)
 Create(h) ==
   /\ kind # "bare" /\ holds[h] = 0 /\ made < NObj
   /\ LET o == made + 1 IN
        /\ made' = o
        /\ holds' = [holds EXCEPT ![h] = o]
+       /\ origin' = [origin EXCEPT ![o] = o]
        /\ cnt' = [cnt EXCEPT ![o] = 1] /\ alive' = [alive EXCEPT ![o] = TRUE] /\ snd' = [snd EXCEPT ![o] = TRUE]
-  /\ UNCHANGED <<copyh, hascopy, extra, defer>> /\ Frame
-  /\ Answer("create", [h |-> h], "ok", <<>>, -1)
+  /\ UNCHANGED <<copyh, hascopy, extra, defer>> /\ Frame /\ SetInner(inner)
+  /\ Answer("create", [h |-> h, len |-> tlen], "ok", <<>>, -1)
 
-(* handle h := what handle g refers to *)
-Copy(h, g, via) ==
-  LET t == holds[g]  o == holds[h]  arg == [h |-> h, g |-> g, via |-> via] IN
-  /\ via \in CopyVias(kind) /\ (Construct(via) => o = 0) /\ Frame
+(* handle h := what handle g refers to (sin = 0), or what the object g refers to holds itself (sin = 1: *)
+(* the source is the element / member inside that object -- also when g = h)                          *)
+Copy(h, g, via, sin) ==
+  LET t == IF sin = 1 THEN inner[holds[g]] ELSE holds[g]
+      o == holds[h]
+      arg == [h |-> h, g |-> g, via |-> via, sin |-> sin] IN
+  /\ via \in CopyVias(kind) /\ (Construct(via) => o = 0) /\ FrameO
+  /\ (sin = 1 => Nestable(kind) /\ holds[g] # 0)
   /\ IF t = o
-     THEN /\ Tier1Same /\ UNCHANGED <<cnt, alive>>
+     THEN /\ Tier1Same /\ UNCHANGED <<cnt, alive, inner>>
           \* assigning the referent to itself through conversion is addref + unref: no reference moves,
           \* but the unref is one that "leaves other references" (clears a reply context's send callback)
           /\ snd' = IF o # 0 /\ kind = "reply" /\ via \in {"conv", "value", "valueptr"} /\ CanRaise(M0, o)
@@ -145,73 +193,97 @@ Copy(h, g, via) ==
      THEN IF ClearsOnFail(via)
           THEN LET m == MLower(M0, o) IN
                /\ holds' = [holds EXCEPT ![h] = 0] /\ SetM(m)
-               /\ UNCHANGED <<copyh, hascopy, extra, defer, made>>
+               /\ UNCHANGED <<copyh, hascopy, extra, defer, made>> /\ SetInner(inner)
                /\ Answer("copy", arg, "any", m.gone, -1)
           ELSE Same /\ Answer("copy", arg, "refused", <<>>, -1)
-     ELSE LET m1 == IF t = 0 THEN M0 ELSE MRaise(M0, t)
-              m2 == IF AsFound /\ via \in {"conv", "value", "valueptr"} THEN MTryRaise(m1, o) ELSE MLower(m1, o) IN
+     ELSE LET m1 == IF t = 0 THEN M0 ELSE MRaise(M0, t)          \* retain the new referent first ...
+              m2 == IF AsFound /\ via \in {"conv", "value", "valueptr"} THEN MTryRaise(m1, o)
+                    ELSE MLower(m1, o) IN                        \* ... then release the old one (may cascade)
           /\ holds' = [holds EXCEPT ![h] = t] /\ SetM(m2)
-          /\ UNCHANGED <<copyh, hascopy, extra, defer, made>>
+          /\ UNCHANGED <<copyh, hascopy, extra, defer, made>> /\ SetInner(inner)
           /\ Answer("copy", arg, "ok", m2.gone, -1)
+
+(* the object handle h refers to takes (or gives up, when g is empty) a reference of its own to what *)
+(* handle g refers to: element assignment of an array of arrays, reference member of a metatype      *)
+Nest(h, g, via) ==
+  LET a == holds[h]  t == holds[g]  old == inner[a]
+      arg == [h |-> h, g |-> g, via |-> via] IN
+  /\ Nestable(kind) /\ via \in CopyVias(kind) \ {"traits", "cxxctor"} /\ a # 0 /\ FrameO
+  /\ (t # 0 => ~Reaches(t, a))                      \* no cycles (they would never be released)
+  /\ IF t = old
+     THEN Same /\ Answer("nest", arg, "any", <<>>, -1)
+     ELSE IF t # 0 /\ ~CanRaise(M0, t)
+     THEN IF ClearsOnFail(via)
+          THEN LET m == MLower(M0, old) IN
+               /\ Tier1Same /\ SetM(m) /\ SetInner([inner EXCEPT ![a] = 0])
+               /\ Answer("nest", arg, "any", m.gone, -1)
+          ELSE Same /\ Answer("nest", arg, "refused", <<>>, -1)
+     ELSE LET m1 == IF t = 0 THEN M0 ELSE MRaise(M0, t)
+              m2 == MLower(m1, old) IN
+          /\ Tier1Same /\ SetM(m2) /\ SetInner([inner EXCEPT ![a] = t])
+          /\ Answer("nest", arg, "ok", m2.gone, -1)
 
 (* handle h gives up its reference *)
 Drop(h, via) ==
   LET o == holds[h]  m == MLower(M0, o) IN
-  /\ via \in DropVias(kind) /\ Frame
+  /\ via \in DropVias(kind) /\ FrameO
   /\ holds' = [holds EXCEPT ![h] = 0] /\ SetM(m)
-  /\ UNCHANGED <<copyh, hascopy, extra, defer, made>>
+  /\ UNCHANGED <<copyh, hascopy, extra, defer, made>> /\ SetInner(inner)
   /\ Answer("drop", [h |-> h, via |-> via], IF o = 0 THEN "any" ELSE "ok", m.gone, -1)
 
 (* C++ move assignment: h takes over g's reference *)
 Move(h, g) ==
   LET t == holds[g]  o == holds[h] IN
-  /\ HasCxx(kind) /\ Frame
+  /\ HasCxx(kind) /\ FrameO
   /\ IF h = g THEN Same /\ Answer("move", [h |-> h, g |-> g], "ok", <<>>, -1)
      ELSE LET m == MLower(M0, o) IN
           /\ holds' = [holds EXCEPT ![h] = t, ![g] = 0] /\ SetM(m)
-          /\ UNCHANGED <<copyh, hascopy, extra, defer, made>>
+          /\ UNCHANGED <<copyh, hascopy, extra, defer, made>> /\ SetInner(inner)
           /\ Answer("move", [h |-> h, g |-> g], "ok", m.gone, -1)
 
 (* reference<T>::detach(): the plain pointer now carries the reference *)
 Detach(h) ==
   LET o == holds[h] IN
-  /\ HasCxx(kind) /\ o # 0 /\ extra[o] < MaxExtra /\ Frame
+  /\ HasCxx(kind) /\ o # 0 /\ extra[o] < MaxExtra /\ FrameO
   /\ holds' = [holds EXCEPT ![h] = 0] /\ extra' = [extra EXCEPT ![o] = @ + 1]
-  /\ UNCHANGED <<copyh, hascopy, defer, made, cnt, alive, snd>>
+  /\ UNCHANGED <<copyh, hascopy, defer, made, cnt, alive, snd, inner>>
   /\ Answer("detach", [h |-> h], "ok", <<>>, -1)
 
 (* reference<T>::set_instance(p): the handle takes over a plain-pointer reference *)
 Adopt(h, o) ==
   LET old == holds[h]  m == MLower(M0, old) IN
-  /\ HasCxx(kind) /\ o <= made /\ extra[o] > 0 /\ Frame
+  /\ HasCxx(kind) /\ o <= made /\ extra[o] > 0 /\ FrameO
   /\ (old = o => cnt[o] > 1)        \* handing a handle its own only reference is a caller error
   /\ holds' = [holds EXCEPT ![h] = o] /\ extra' = [extra EXCEPT ![o] = @ - 1] /\ SetM(m)
-  /\ UNCHANGED <<copyh, hascopy, defer, made>>
+  /\ UNCHANGED <<copyh, hascopy, defer, made>> /\ SetInner(inner)
   /\ Answer("adopt", [h |-> h, o |-> o], "ok", m.gone, -1)
 
 (* addref / unref through the object's own interface *)
 RawRef(o) ==
-  /\ kind # "bare" /\ o <= made /\ alive[o] /\ extra[o] < MaxExtra /\ Frame
+  /\ kind # "bare" /\ o <= made /\ alive[o] /\ extra[o] < MaxExtra /\ FrameO
   /\ IF CanRaise(M0, o)
      THEN /\ extra' = [extra EXCEPT ![o] = @ + 1] /\ SetM(MRaise(M0, o))
-          /\ UNCHANGED <<holds, copyh, hascopy, defer, made>>
+          /\ UNCHANGED <<holds, copyh, hascopy, defer, made, inner>>
           /\ Answer("rawref", [o |-> o], "ok", <<>>, -1)
      ELSE Same /\ Answer("rawref", [o |-> o], "refused", <<>>, -1)
 RawUnref(o) ==
   LET m == MLower(M0, o) IN
-  /\ kind # "bare" /\ o <= made /\ extra[o] > 0 /\ Frame
+  /\ kind # "bare" /\ o <= made /\ extra[o] > 0 /\ FrameO
   /\ extra' = [extra EXCEPT ![o] = @ - 1] /\ SetM(m)
-  /\ UNCHANGED <<holds, copyh, hascopy, defer, made>>
+  /\ UNCHANGED <<holds, copyh, hascopy, defer, made>> /\ SetInner(inner)
   /\ Answer("rawunref", [o |-> o], "ok", m.gone, -1)
 
-(* reply context: defer() hands out a detached handle that keeps the context *)
-Defer(o) ==
-  /\ kind = "reply" /\ o <= made /\ alive[o] /\ defer[o] < MaxExtra /\ Frame
-  /\ IF CanRaise(M0, o)
+(* reply context: defer() hands out a detached handle that keeps the context.  armed = 0: there is no  *)
+(* pending request (never armed, already deferred, already answered) -- refused, and like every refusal *)
+(* it changes nothing                                                                                   *)
+Defer(o, armed) ==
+  LET arg == [o |-> o, armed |-> armed] IN
+  /\ kind = "reply" /\ o <= made /\ alive[o] /\ defer[o] < MaxExtra /\ FrameO
+  /\ IF armed = 1 /\ CanRaise(M0, o)
      THEN /\ defer' = [defer EXCEPT ![o] = @ + 1] /\ SetM(MRaise(M0, o))
-          /\ UNCHANGED <<holds, copyh, hascopy, extra, made>>
-          /\ Answer("defer", [o |-> o], "ok", <<>>, -1)
-     ELSE Same /\ Answer("defer", [o |-> o], "refused", <<>>, -1)
+          /\ UNCHANGED <<holds, copyh, hascopy, extra, made, inner>>
+          /\ Answer("defer", arg, "ok", <<>>, -1)
+     ELSE Same /\ Answer("defer", arg, "refused", <<>>, -1)
 (* reply(msg) through a detached handle.  The transport either accepts or rejects the send (accept); *)
 (* an explicit reply (msg = 1) that is rejected keeps the handle -- and therefore its reference --   *)
 (* for a retry; every other outcome (accepted, final reply(0), nobody left to send to) consumes the  *)
@@ -220,29 +292,29 @@ Undefer(o, msg, accept) ==
   LET arg  == [o |-> o, msg |-> msg, accept |-> accept]
       kept == msg = 1 /\ accept = 0 /\ snd[o]
       m    == MLowerD(M0, o) IN
-  /\ kind = "reply" /\ o <= made /\ defer[o] > 0 /\ FrameK
+  /\ kind = "reply" /\ o <= made /\ defer[o] > 0 /\ FrameK /\ KeepOrigin
   /\ IF kept
      THEN /\ tries[o] < MaxTries
           /\ tries' = [tries EXCEPT ![o] = @ + 1]
           /\ Same /\ Answer("undefer", arg, "kept", <<>>, -1)
      ELSE /\ tries' = [tries EXCEPT ![o] = 0]
           /\ defer' = [defer EXCEPT ![o] = @ - 1] /\ SetM(m)
-          /\ UNCHANGED <<holds, copyh, hascopy, extra, made>>
+          /\ UNCHANGED <<holds, copyh, hascopy, extra, made>> /\ SetInner(inner)
           /\ Answer("undefer", arg, "done", m.gone, -1)
 
 (* reply(msg) through the context itself: whatever the transport answers, no reference moves *)
 ReplyCtx(o, msg, accept) ==
-  /\ kind = "reply" /\ o <= made /\ alive[o] /\ Frame
+  /\ kind = "reply" /\ o <= made /\ alive[o] /\ FrameO
   /\ Same
   /\ Answer("reply", [o |-> o, msg |-> msg, accept |-> accept], "any", <<>>, -1)
 
 (* write the counter directly: everything above the handles' share is held by the environment *)
 Poke(o, v) ==
-  /\ Pokable(kind) /\ o <= made /\ alive[o] /\ Frame
-  /\ v >= HRefs(o) + defer[o] /\ v >= 1 /\ v <= Max
-  /\ extra' = [extra EXCEPT ![o] = v - HRefs(o) - defer[o]]
+  /\ Pokable(kind) /\ o <= made /\ alive[o] /\ FrameO
+  /\ v >= HRefs(o) + defer[o] + NestRefs(o) /\ v >= 1 /\ v <= Max
+  /\ extra' = [extra EXCEPT ![o] = v - HRefs(o) - defer[o] - NestRefs(o)]
   /\ cnt' = [cnt EXCEPT ![o] = v]
-  /\ UNCHANGED <<holds, copyh, hascopy, defer, made, alive, snd>>
+  /\ UNCHANGED <<holds, copyh, hascopy, defer, made, alive, snd, inner>>
   /\ Answer("poke", [o |-> o, v |-> v], "ok", <<>>, -1)
 
 (* array of references: element-wise copy of all handles (type traits init), and its release *)
@@ -256,30 +328,36 @@ RECURSIVE DropFold(_, _)
 DropFold(h, m) == IF h > NH THEN m ELSE DropFold(h + 1, MLower(m, copyh[h]))
 ArrCopy ==
   LET r == ArrFold(1, M0, <<>>) IN
-  /\ HasArr(kind) /\ ~hascopy /\ Frame
+  /\ HasArr(kind) /\ ~hascopy /\ FrameO
   /\ copyh' = r.c /\ hascopy' = TRUE /\ SetM(r.m)
-  /\ UNCHANGED <<holds, extra, defer, made>>
+  /\ UNCHANGED <<holds, extra, defer, made, inner>>
   /\ Answer("arrcopy", [x |-> 0], "ok", <<>>, -1)
 ArrDrop ==
   LET m == DropFold(1, M0) IN
-  /\ HasArr(kind) /\ hascopy /\ Frame
+  /\ HasArr(kind) /\ hascopy /\ FrameO
   /\ copyh' = [h \in Handles |-> 0] /\ hascopy' = FALSE /\ SetM(m)
-  /\ UNCHANGED <<holds, extra, defer, made>>
+  /\ UNCHANGED <<holds, extra, defer, made>> /\ SetInner(inner)
   /\ Answer("arrdrop", [x |-> 0], "ok", m.gone, -1)
 
-(* copy-on-write detach of a buffer (buffer detach(), mpt_array_reserve): a shared buffer is left *)
-(* to the other holders and the handle gets a buffer of its own; a unique one stays               *)
+(* copy-on-write detach of a buffer (buffer detach(), mpt_array_reserve): a shared buffer is left to *)
+(* the other holders and the handle gets a buffer of its own -- a copy, so what the shared one holds *)
+(* itself is retained once more for the copy; a unique buffer stays                                  *)
 Unshare(h, via) ==
   LET o == holds[h]  arg == [h |-> h, via |-> via] IN
   /\ kind = "buf" /\ o # 0 /\ Frame
   /\ IF cnt[o] > 1
      THEN /\ made < NObj
-          /\ LET n == made + 1  m == MLower(M0, o) IN
+          /\ LET n  == made + 1
+                 t  == inner[o]
+                 m1 == IF t # 0 /\ CanRaise(M0, t) THEN MRaise(M0, t) ELSE M0
+                 m  == MLower(m1, o) IN
                /\ made' = n /\ holds' = [holds EXCEPT ![h] = n]
+               /\ origin' = [origin EXCEPT ![n] = n]
                /\ cnt' = [m.cnt EXCEPT ![n] = 1] /\ alive' = [m.alive EXCEPT ![n] = TRUE]
-          /\ UNCHANGED <<copyh, hascopy, extra, defer, snd>>
+               /\ UNCHANGED <<copyh, hascopy, extra, defer, snd>>
+               /\ SetInner([inner EXCEPT ![n] = IF t # 0 /\ CanRaise(M0, t) THEN t ELSE 0])
           /\ Answer("unshare", arg, "ok", <<>>, -1)
-     ELSE Same /\ Answer("unshare", arg, "ok", <<>>, -1)
+     ELSE Same /\ KeepOrigin /\ Answer("unshare", arg, "ok", <<>>, -1)
 
 (* metatype clone(): a new object for the empty handle g, or refused *)
 Clone(h, g) ==
@@ -288,57 +366,78 @@ Clone(h, g) ==
   /\ IF Clonable(kind)
      THEN LET n == made + 1 IN
           /\ made' = n /\ holds' = [holds EXCEPT ![g] = n]
+          /\ origin' = [origin EXCEPT ![n] = origin[o]]
           /\ cnt' = [cnt EXCEPT ![n] = 1] /\ alive' = [alive EXCEPT ![n] = TRUE] /\ snd' = [snd EXCEPT ![n] = TRUE]
-          /\ UNCHANGED <<copyh, hascopy, extra, defer>>
+          /\ UNCHANGED <<copyh, hascopy, extra, defer>> /\ SetInner(inner)
           /\ Answer("clone", [h |-> h, g |-> g], "ok", <<>>, -1)
-     ELSE Same /\ Answer("clone", [h |-> h, g |-> g], "refused", <<>>, -1)
+     ELSE Same /\ KeepOrigin /\ Answer("clone", [h |-> h, g |-> g], "refused", <<>>, -1)
+
+(* everything is released: all handles, the array copy, plain-pointer references, detached handles  *)
+(* (final reply).  Whatever the history was, every object is destroyed and nothing stays allocated. *)
+RECURSIVE AliveSeq(_, _)
+AliveSeq(a, o) == IF o > NObj THEN <<>> ELSE (IF a[o] THEN <<o>> ELSE <<>>) \o AliveSeq(a, o + 1)
+CanTeardown(k, c) == k = "bare" \/ \A o \in Objs : c[o] <= Max \div 2     \* not while a counter is poked up to MAX-k
+TeardownExp(k, a, c) ==
+  [ret |-> "ok", href |-> [h \in Handles |-> 0], copy |-> [h \in Handles |-> 0], inner |-> [o \in Objs |-> 0],
+   alive |-> [o \in Objs |-> 0], gone |-> IF k = "bare" THEN <<>> ELSE AliveSeq(a, 1),
+   cnt |-> [o \in Objs |-> -1], shared |-> [o \in Objs |-> -1], val |-> -1,
+   bare |-> IF k = "bare" THEN c[1] ELSE -1, badfree |-> 0, quiet |-> 0]
+Teardown ==
+  /\ CanTeardown(kind, cnt) /\ FrameK /\ KeepOrigin
+  /\ holds' = [h \in Handles |-> 0] /\ copyh' = [h \in Handles |-> 0] /\ hascopy' = FALSE
+  /\ extra' = [o \in Objs |-> 0] /\ defer' = [o \in Objs |-> 0] /\ tries' = [o \in Objs |-> 0]
+  /\ inner' = [o \in Objs |-> 0] /\ UNCHANGED <<made, snd>>
+  /\ cnt' = IF kind = "bare" THEN cnt ELSE [o \in Objs |-> 0]
+  /\ alive' = [o \in Objs |-> FALSE]
+  /\ obs' = [a |-> "teardown", arg |-> [x |-> 0], exp |-> TeardownExp(kind, alive, cnt)]
 
 (* plain struct refcount: cnt[1] is the value; api = "c" | "cxx" (refcount::raise/lower) *)
 BareSet(v) ==
-  /\ kind = "bare" /\ Frame /\ Tier1Same /\ UNCHANGED <<alive, snd>>
+  /\ kind = "bare" /\ FrameO /\ Tier1Same /\ UNCHANGED <<alive, snd, inner>>
   /\ cnt' = [cnt EXCEPT ![1] = v]
   /\ Answer("bareset", [v |-> v], "ok", <<>>, -1)
 BareRaise(api) ==
-  /\ kind = "bare" /\ Frame /\ Tier1Same /\ UNCHANGED <<alive, snd>>
+  /\ kind = "bare" /\ FrameO /\ Tier1Same /\ UNCHANGED <<alive, snd, inner>>
   /\ IF cnt[1] # 0 /\ cnt[1] # Max
      THEN cnt' = [cnt EXCEPT ![1] = @ + 1] /\ Answer("bareraise", [api |-> api], "ok", <<>>, cnt[1] + 1)
      ELSE UNCHANGED cnt /\ Answer("bareraise", [api |-> api], "refused", <<>>, 0)
 BareLower(api) ==
-  /\ kind = "bare" /\ Frame /\ Tier1Same /\ UNCHANGED <<alive, snd>>
+  /\ kind = "bare" /\ FrameO /\ Tier1Same /\ UNCHANGED <<alive, snd, inner>>
   /\ IF cnt[1] # 0
      THEN cnt' = [cnt EXCEPT ![1] = @ - 1] /\ Answer("barelower", [api |-> api], "ok", <<>>, cnt[1] - 1)
      ELSE UNCHANGED cnt /\ Answer("barelower", [api |-> api], "any", <<>>, -1)
 BareSeen == IF kind = "bare" THEN cnt[1] ELSE -1
 
 ---------------------------------------------------------------------------
-InitKind(k) ==
-  /\ kind = k
+InitKind(k, tl) ==
+  /\ kind = k /\ tlen = tl
   /\ holds = [h \in Handles |-> 0] /\ copyh = [h \in Handles |-> 0] /\ hascopy = FALSE
   /\ extra = [o \in Objs |-> 0] /\ defer = [o \in Objs |-> 0] /\ made = 0
+  /\ inner = [o \in Objs |-> 0] /\ origin = [o \in Objs |-> 0]
   /\ cnt = [o \in Objs |-> IF k = "bare" /\ o = 1 THEN 1 ELSE 0] /\ alive = [o \in Objs |-> FALSE]
   /\ snd = [o \in Objs |-> TRUE] /\ tries = [o \in Objs |-> 0]
   /\ obs = [a |-> "init", arg |-> [kind |-> k, nh |-> NH, nobj |-> NObj, max |-> Max],
-            exp |-> [ret |-> "ok", href |-> [h \in Handles |-> 0], copy |-> [h \in Handles |-> 0],
-                     alive |-> [o \in Objs |-> 0], gone |-> <<>>, cnt |-> [o \in Objs |-> -1],
-                     shared |-> [o \in Objs |-> -1], val |-> -1, bare |-> IF k = "bare" THEN 1 ELSE -1, badfree |-> 0, quiet |-> 0]]
-Init == \E k \in Kinds : InitKind(k)
+            exp |-> TeardownExp(k, [o \in Objs |-> FALSE], [o \in Objs |-> IF k = "bare" /\ o = 1 THEN 1 ELSE 0])]
+Init == \E k \in Kinds : \E tl \in (IF k = "metanew" THEN TextLens ELSE IF k = "buf" THEN {0, 8} ELSE {0}) : InitKind(k, tl)
 
-PokeVals(o) == {Max - 1, Max} \cup (IF HRefs(o) + defer[o] >= 1 THEN {HRefs(o) + defer[o]} ELSE {})
+PokeVals(o) == {Max - 1, Max} \cup (IF HRefs(o) + defer[o] + NestRefs(o) >= 1 THEN {HRefs(o) + defer[o] + NestRefs(o)} ELSE {})
 
 Next ==
   \/ \E h \in Handles : Create(h) \/ Detach(h)
-  \/ \E h \in Handles, g \in Handles, via \in CopyVias(kind) : Copy(h, g, via)
+  \/ \E h \in Handles, g \in Handles, via \in CopyVias(kind), sin \in {0, 1} : Copy(h, g, via, sin)
+  \/ \E h \in Handles, g \in Handles, via \in CopyVias(kind) : Nest(h, g, via)
   \/ \E h \in Handles, via \in DropVias(kind) : Drop(h, via)
   \/ \E h \in Handles, g \in Handles : Move(h, g) \/ Clone(h, g)
   \/ \E h \in Handles, via \in {"vptr", "reserve"} : Unshare(h, via)
   \/ \E h \in Handles, o \in Objs : Adopt(h, o)
-  \/ \E o \in Objs : RawRef(o) \/ RawUnref(o) \/ Defer(o)
+  \/ \E o \in Objs : RawRef(o) \/ RawUnref(o) \/ Defer(o, 0) \/ Defer(o, 1)
   \/ \E o \in Objs, msg \in {0, 1}, accept \in {0, 1} : Undefer(o, msg, accept)
   \/ \E o \in Objs, accept \in {0, 1} : ReplyCtx(o, 1, accept)
   \/ \E o \in Objs : \E v \in PokeVals(o) : Poke(o, v)
   \/ ArrCopy \/ ArrDrop
   \/ \E v \in {0, 1, 2, Max - 1, Max} : BareSet(v)
   \/ \E api \in {"c", "cxx"} : BareRaise(api) \/ BareLower(api)
+  \/ Teardown
 
 Spec == Init /\ [][Next]_vars
 
@@ -347,24 +446,29 @@ Spec == Init /\ [][Next]_vars
 TypeOK ==
   /\ kind \in Kinds /\ made \in 0..NObj
   /\ \A h \in Handles : holds[h] \in 0..made /\ copyh[h] \in 0..made
+  /\ \A o \in Objs : inner[o] \in 0..made /\ origin[o] \in 0..made
   /\ \A o \in Objs : cnt[o] \in 0..Max /\ extra[o] \in 0..Max /\ defer[o] \in 0..MaxExtra /\ snd[o] \in BOOLEAN /\ tries[o] \in 0..MaxTries
 
 (* the object lives exactly as long as somebody refers to it *)
-AliveIffReferenced == kind # "bare" => \A o \in Objs : alive[o] <=> (o <= made /\ Refs(o) > 0)
+AliveIffReferenced == kind # "bare" => \A o \in Objs : alive[o] <=> (o <= made /\ o \in Live1)
 (* the counter equals the number of references; never beyond Max (no wrap) *)
 CountExact == kind # "bare" => \A o \in Objs : alive[o] => (IF Sharable(kind) THEN cnt[o] = Refs(o) ELSE Refs(o) = 1)
 (* nobody refers to an object that has been destroyed *)
-NoDangling == \A h \in Handles : (holds[h] # 0 => alive[holds[h]]) /\ (hascopy /\ copyh[h] # 0 => alive[copyh[h]])
+NoDangling == /\ \A h \in Handles : (holds[h] # 0 => alive[holds[h]]) /\ (hascopy /\ copyh[h] # 0 => alive[copyh[h]])
+              /\ \A o \in Objs : inner[o] # 0 => (alive[o] /\ alive[inner[o]])
 (* what the check compares (computed from Tier 1) agrees with Tier 2 *)
 ObsAgrees == /\ \A o \in Objs : obs.exp.alive[o] = Bit(alive[o])
              /\ \A o \in Objs : obs.exp.cnt[o] = Seen(o, cnt, alive)
 
 (* action properties *)
-RefusedUnchanged == [][obs'.exp.ret \in {"refused", "kept"} => UNCHANGED <<holds, copyh, hascopy, extra, defer, made, cnt, alive, snd>>]_vars
+RefusedUnchanged == [][obs'.exp.ret \in {"refused", "kept"} => UNCHANGED <<holds, copyh, hascopy, extra, defer, made, inner, cnt, alive, snd>>]_vars
 DestroyedOnce    == [][\A o \in Objs : (alive[o] /\ ~alive'[o]) <=> (\E i \in 1..Len(obs'.exp.gone) : obs'.exp.gone[i] = o)]_vars
 NoResurrection   == [][\A o \in Objs : (o <= made /\ ~alive[o]) => ~alive'[o]]_vars
-ReplaceOnce      == [][(obs'.a = "copy" /\ obs'.exp.ret = "ok" /\ holds[obs'.arg.h] # holds[obs'.arg.g]) =>
+ReplaceOnce      == [][(obs'.a = "copy" /\ obs'.exp.ret = "ok" /\ obs'.arg.sin = 0 /\ holds[obs'.arg.h] # holds[obs'.arg.g]) =>
                          LET t == holds[obs'.arg.g]  o == holds[obs'.arg.h] IN
-                         /\ (t # 0 => cnt'[t] = cnt[t] + 1)
-                         /\ (o # 0 => cnt'[o] = cnt[o] - 1 \/ (~Sharable(kind) /\ cnt'[o] = 0))]_vars
+                         /\ (t # 0 /\ ~Reaches(o, t) => cnt'[t] = cnt[t] + 1)
+                         /\ (o # 0 /\ ~Reaches(t, o) => cnt'[o] = cnt[o] - 1 \/ (~Sharable(kind) /\ cnt'[o] = 0))]_vars
+(* retain before release: the object being assigned survives the assignment, whoever kept it alive before *)
+NewReferentSurvives == [][(obs'.a = "copy" /\ obs'.exp.ret = "ok" /\ holds'[obs'.arg.h] # 0) => alive'[holds'[obs'.arg.h]]]_vars
+TeardownClears   == [][obs'.a = "teardown" => \A o \in Objs : ~alive'[o]]_vars
 =============================================================================
